@@ -252,7 +252,9 @@ func truncateString(s string, maxLen int, pos int) string {
 // calculateDisplayColumn calculates the column position in the truncated string
 func calculateDisplayColumn(originalLine string, originalPos, maxLen int) int {
 	if len(originalLine) <= maxLen {
-		return originalPos
+		// The column may lie beyond the line (a //line directive can name any column):
+		// the caret then marks the end of the line
+		return min(originalPos, len(originalLine)+1)
 	}
 
 	// Convert to 0-based
